@@ -1430,7 +1430,8 @@ class Config:  # pylint: disable=too-many-instance-attributes
                 ) from err
 
         for key, sub_schema in sub_schemas:
-            if tree.get(key):
+            # anything but a map is left for load_tree() to reject, with the field's path
+            if tree.get(key) and isinstance(tree[key], dict):
                 tree[key] = self._process_includes(
                     sub_schema, tree[key], format_factory
                 )
